@@ -335,7 +335,19 @@ def M_mtl_new(it, ctx, args, st):
     if isinstance(v, Agg) and v.name == 'AbstractStr':
         yield st, Agg('It', ('mtlist', v.fields[0], None, 0, None))
         return
-    raise Unsupported('MediaTypeList::new of a concrete text')
+    py = bstr_py(v)
+    if py is None:
+        raise Unsupported('MediaTypeList::new of a symbolic text (give the header an abstract parse)')
+    # concrete header text: comma-separated ranges (no quoted commas in the texts the harnesses produce: stated)
+    if b'"' in py:
+        raise Unsupported('MediaTypeList::new of a concrete text with quoted strings')
+    items = []
+    for part in py.decode('latin1').split(','):
+        if not part.strip():
+            continue
+        mt = parse_concrete_media_type(it, part)
+        items.append((z3.BoolVal(mt is not None), mt))
+    yield st, Agg('It', ('mtlist', tuple(items), None, 0, None))
 
 
 def M_mt_new(it, ctx, args, st):
